@@ -145,6 +145,14 @@ class KernelSym(Evaluator):
         return super().ev_index(s)
 
     def binop(self, node, op, a, b):
+        if isinstance(op, ast.BitAnd) and all(isinstance(x, (bool, Cmp, Conj)) for x in (a, b)):
+            # flag &= test: the conjunction of the tests (no short-circuit, which does not matter for pure comparisons)
+            if a is False or b is False:
+                return False
+            terms = []
+            for x in (a, b):
+                terms += x.terms if isinstance(x, Conj) else [x] if isinstance(x, Cmp) else []
+            return Conj(terms) if terms else True
         if isinstance(op, ast.FloorDiv):
             return Wrapped("floordiv", a, b)
         if isinstance(op, ast.Mod):
